@@ -7,8 +7,10 @@ import (
 	"encoding/binary"
 	"fmt"
 	"net"
+	"runtime"
 	"sort"
 	"sync"
+	"sync/atomic"
 	"time"
 
 	comm "github.com/IBM/TSS/net"
@@ -802,4 +804,170 @@ func scenarioBurst(seed uint64, variant string, n, payload int) {
 	j.Timeouts = s.log.timeoutCount()
 	emit(j)
 	stop()
+}
+
+// ---- scenario family: concurrent first send ----------------------------------------------------------------------------
+// Every round builds FRESH destination objects (NewSocketRemoteParty) towards the same healthy peers and releases several
+// caller goroutines through a spinning barrier, so that the very first Send to each destination is issued by all of them
+// at the same instant.  Exactly one writer goroutine may be started per destination: with two, frames of one connection
+// are reordered, interleaved (mis-framed) or lost.  Monitors: per (round, destination, caller) strict order, exactly once,
+// integrity, count, nothing surplus.
+
+type jFirst struct {
+	Kind       string   `json:"kind"` // "firstsend"
+	Rounds     int      `json:"rounds"`
+	Senders    int      `json:"senders"`
+	Dests      int      `json:"dests"`
+	PerSender  int      `json:"frames_per_sender"`
+	Expected   int      `json:"expected"`
+	Received   int      `json:"received"`
+	Complete   bool     `json:"complete"`
+	FreshDests int      `json:"fresh_destinations"`
+	Violations []string `json:"violations"`
+	BadRound   int      `json:"bad_round"`
+	Ms         int64    `json:"ms"`
+}
+
+func scenarioFirstSend(seed uint64, budget time.Duration, maxRounds int) {
+	const S, D, F = 8, 3, 12
+	c := newCluster(D + 1)
+	sender := c.nodes[0]
+	j := jFirst{Kind: "firstsend", Senders: S, Dests: D, PerSender: F, Violations: []string{}, BadRound: -1}
+	var mu sync.Mutex
+	viol := func(f string, a ...interface{}) {
+		mu.Lock()
+		if len(j.Violations) < 10 {
+			j.Violations = append(j.Violations, fmt.Sprintf(f, a...))
+		}
+		mu.Unlock()
+	}
+	// receivers: real Listen + ServiceConnections; per (round, dest) the next expected sequence number of every caller
+	type rk struct{ round, dest int }
+	next := map[rk]*[S]int{}
+	var counts sync.Map // round -> *int64
+	countOf := func(round int) *int64 {
+		v, _ := counts.LoadOrStore(round, new(int64))
+		return v.(*int64)
+	}
+	filler := newPRNG(seed).bytes(64)
+	for d := 1; d <= D; d++ {
+		nd := c.nodes[d]
+		lsnr := comm.Listen(nd.addr, c.srvID.certPEM, c.srvID.keyPEM())
+		in, _ := comm.ServiceConnections(lsnr, c.p2id, nd.log)
+		go func(d int, in <-chan comm.InMsg) {
+			for m := range in {
+				if m.From != sender.id || m.Domain != loopDomain || m.Type != 2 || len(m.Topic) != 32 || len(m.Data) < 12 {
+					viol("node %d: frame differs: from %d type %d topic %d bytes payload %d bytes (never sent)", d, m.From, m.Type, len(m.Topic), len(m.Data))
+					continue
+				}
+				round := int(binary.LittleEndian.Uint32(m.Data[0:]))
+				g := int(binary.LittleEndian.Uint16(m.Data[4:]))
+				seq := int(binary.LittleEndian.Uint16(m.Data[6:]))
+				sz := int(binary.LittleEndian.Uint32(m.Data[8:]))
+				if g >= S || seq >= F || sz != len(m.Data)-12 || sz > 64 || string(m.Data[12:]) != string(filler[:sz]) || m.Topic[0] != byte(round) || m.Topic[1] != byte(d) {
+					viol("node %d: frame differs from anything sent: round %d caller %d seq %d, payload %d bytes", d, round, g, seq, len(m.Data))
+					continue
+				}
+				mu.Lock()
+				st := next[rk{round, d}]
+				if st == nil {
+					st = new([S]int)
+					next[rk{round, d}] = st
+				}
+				want := st[g]
+				if seq == want {
+					st[g]++
+				}
+				mu.Unlock()
+				if seq != want {
+					viol("round %d, node %d <- caller %d: got sequence number %d where %d was due (reordered / duplicated / missing)", round, d, g, seq, want)
+				}
+				atomic.AddInt64(countOf(round), 1)
+			}
+		}(d, in)
+	}
+	t0 := time.Now()
+	r := newPRNG(seed ^ 0xf1)
+	for round := 0; round < maxRounds && time.Since(t0) < budget; round++ {
+		// fresh destination objects: nothing has ever been sent through them
+		remotes := comm.SocketRemoteParties{}
+		for d := 1; d <= D; d++ {
+			remotes[d] = comm.NewSocketRemoteParty(comm.PartyConnectionConfig{
+				AuthFunc: authFunc(sender.ident, loopDomain), Domain: loopDomain, Id: d, Endpoint: c.nodes[d].addr, TlsCAs: c.pool}, sender.log)
+		}
+		j.FreshDests += D
+		sizes := [S][F]int{}
+		for g := 0; g < S; g++ {
+			for q := 0; q < F; q++ {
+				sizes[g][q] = r.intn(65)
+			}
+		}
+		var ready, release int32
+		var wg sync.WaitGroup
+		for g := 0; g < S; g++ {
+			wg.Add(1)
+			go func(g int) {
+				defer wg.Done()
+				// everything allocated before the barrier
+				var msgs [F][D][]byte
+				var topics [D][]byte
+				for d := 1; d <= D; d++ {
+					topics[d-1] = make([]byte, 32)
+					topics[d-1][0], topics[d-1][1] = byte(round), byte(d)
+				}
+				for q := 0; q < F; q++ {
+					for d := 0; d < D; d++ {
+						b := make([]byte, 12+sizes[g][q])
+						binary.LittleEndian.PutUint32(b[0:], uint32(round))
+						binary.LittleEndian.PutUint16(b[4:], uint16(g))
+						binary.LittleEndian.PutUint16(b[6:], uint16(q))
+						binary.LittleEndian.PutUint32(b[8:], uint32(sizes[g][q]))
+						copy(b[12:], filler)
+						msgs[q][d] = b
+					}
+				}
+				order := []int{1, 2, 3}
+				// callers start at different destinations, so that every destination sees simultaneous first calls
+				order = append(order[g%D:], order[:g%D]...)
+				atomic.AddInt32(&ready, 1)
+				for atomic.LoadInt32(&release) == 0 {
+				}
+				for q := 0; q < F; q++ {
+					for _, d := range order {
+						remotes.Send(2, topics[d-1], msgs[q][d-1], uint16(d))
+					}
+				}
+			}(g)
+		}
+		for atomic.LoadInt32(&ready) < S {
+			runtime.Gosched()
+		}
+		atomic.StoreInt32(&release, 1)
+		wg.Wait()
+		j.Rounds++
+		j.Expected += S * D * F
+		cnt := countOf(round)
+		dl := time.Now().Add(3 * time.Second)
+		for atomic.LoadInt64(cnt) < S*D*F && time.Now().Before(dl) {
+			time.Sleep(100 * time.Microsecond)
+		}
+		got := int(atomic.LoadInt64(cnt))
+		j.Received += got
+		if got != S*D*F {
+			viol("round %d: %d of %d frames arrived within 3 s (lost, or a receiver is stuck inside a mis-framed message)", round, got, S*D*F)
+		}
+		mu.Lock()
+		bad := len(j.Violations) > 0
+		mu.Unlock()
+		if bad {
+			j.BadRound = round
+			break
+		}
+	}
+	time.Sleep(50 * time.Millisecond) // surplus frames of the last round would arrive now
+	mu.Lock()
+	j.Complete = len(j.Violations) == 0 && j.Received == j.Expected
+	mu.Unlock()
+	j.Ms = time.Since(t0).Milliseconds()
+	emit(j)
 }
